@@ -46,19 +46,22 @@ func TestC18(t *testing.T) {
 	sum := &summary{Paths: map[string]int{}}
 	ctx := context.Background()
 	seq := 0
-	for _, cf := range []struct{ N, R int }{{1, 1}, {2, 2}} {
+	for _, cf := range []struct {
+		N, R int
+		RR   bool
+	}{{1, 1, false}, {2, 2, false}, {2, 2, true}} {
 		c, err := cluster.Start(cluster.Options{Replicas: cf.R, Partitions: 1, TableSize: 600, Manual: true}, 1)
 		if err != nil {
 			t.Fatal(err)
 		}
 		if cf.N == 2 {
 			c.Shutdown()
-			c, err = cluster.Start(cluster.Options{Replicas: cf.R, Partitions: 7, TableSize: 600, Manual: true}, 2)
+			c, err = cluster.Start(cluster.Options{Replicas: cf.R, Partitions: 7, TableSize: 600, ReadRepair: cf.RR, Manual: true}, 2)
 			if err != nil {
 				t.Fatal(err)
 			}
 		}
-		label := fmt.Sprintf("N=%d R=%d T=600", cf.N, cf.R)
+		label := fmt.Sprintf("N=%d R=%d T=600 read-repair=%v", cf.N, cf.R, cf.RR)
 		sum.Configs = append(sum.Configs, label)
 		emb, err := c.Members[0].DB.NewEmbeddedClient().NewDMap("c18")
 		if err != nil {
@@ -139,7 +142,42 @@ func TestC18(t *testing.T) {
 			steps := 2 + rng.Intn(4)
 			for j := 0; j < steps; j++ {
 				after := ""
-				switch x := rng.Intn(11); x {
+				x := rng.Intn(11)
+				if cf.RR && j == 0 {
+					x = 11 // the read-repair cluster starts every sequence with the step that needs it
+				}
+				switch x {
+				case 11:
+					// read repair hands the entry it read to the copies that are behind; the caller meanwhile owns the bytes
+					// Get returned.  A stale copy is planted on the backup, the key is read through the owner's embedded
+					// client, and the returned bytes are overwritten at once.
+					owner, _ := c.OwnerOf(c.Live()[0], "c18", key)
+					cur, ok := owner.V.DMap.VerifEntry("c18", key, partitions.PRIMARY)
+					if !ok {
+						break
+					}
+					for _, b := range c.BackupsOf(c.Live()[0], "c18", key) {
+						b.V.DMap.VerifPutRaw("c18", key, []byte("stale-copy"), 0, cur.Timestamp-1000, partitions.BACKUP)
+					}
+					odm, err := owner.DB.NewEmbeddedClient().NewDMap("c18")
+					if err != nil {
+						break
+					}
+					g, err := odm.Get(ctx, key)
+					if err != nil {
+						break
+					}
+					bts, _ := g.Byte()
+					nh++
+					h := &handle{id: seq*100 + nh, b: bts}
+					w.Emit(trace.Ev{"t": "ret", "h": h.id, "k": key, "v": digest(bts), "as": "bytes", "via": "embedded on the owner"})
+					for i := range bts {
+						bts[i] = 'R'
+					}
+					w.Emit(trace.Ev{"t": "mut", "h": h.id, "v": digest(bts)})
+					hs = append(hs, h)
+					time.Sleep(20 * time.Millisecond)
+					after = "a read that repaired a stale copy, whose returned bytes the caller then overwrote"
 				case 9, 10:
 					// a write through a pipeline: the caller's buffer is its own again as soon as Put / GetPut has returned,
 					// that is before Exec sends anything
